@@ -70,7 +70,7 @@ def gen_history(rng, maxlen=1200):
     notes = []
     for _ in range(rng.choice([1, 1, 2, 3, 4, 6])):
         chs = []
-        for _ in range(rng.choice([1, 1, 1, 2, 3])):
+        for _ in range(rng.choice([0, 1, 1, 1, 1, 2, 3])):     # 0: a didChange without content changes (legal LSP)
             cs, ce, ins = editgen.random_change(rng, cur)
             chs.append((cs, ce, ins))
             cur = editgen.apply_change(cur, cs, ce, ins)
